@@ -1,3 +1,5 @@
 import ModVerif.AuditCmd
 import ModVerif.Props.C16
+import ModVerif.Tie.FnModfileCmp
 #audit_module ModVerif.Props.C16
+#audit_module ModVerif.Tie.FnModfileCmp
